@@ -434,7 +434,10 @@ func judge(prop string, p *Plan, r *run, obs []*reqObs, res *core.Result) {
 			// (7b) completeness, through its only observable consequence: a
 			// compatible, reachable, correctly certified target exists => the
 			// request succeeds.
-			if !m.Faulty && reachedHTTP && !o.resp {
+			if o.timedOut {
+				res.Probe("caller_deadline_passed")
+			}
+			if !m.Faulty && reachedHTTP && !o.resp && !o.timedOut {
 				if _, fromHTTPS := m.h3Targets(); h3Ran && wantH3 != "no" && (fromHTTPS || m.Port != 80) {
 					for _, t := range h3List {
 						if r.net.h3[t.Addr] != nil {
@@ -487,7 +490,7 @@ func judge(prop string, p *Plan, r *run, obs []*reqObs, res *core.Result) {
 		if o.hostAfter != o.hostBefore {
 			fail("response-binding", "the caller's request Host is modified", "%s: Host %q -> %q", want, o.hostBefore, o.hostAfter)
 		}
-		if o.resp && served != nil && !q.NoDrain && (o.bodyErr || o.bodyN != q.RespSize) {
+		if o.resp && served != nil && !q.NoDrain && (o.bodyErr || o.bodyN != q.RespSize) && !o.timedOut {
 			fail("response-binding", "response body differs from what the origin sent", "%s: %d octets (error %v), sent %d", want, o.bodyN, o.bodyErr, q.RespSize)
 		}
 
